@@ -1,0 +1,108 @@
+//go:build verif
+
+package hls
+
+// Contracts for pkg/hls (C10: fragment ring of the HLS muxer). Checked by /verif/govc.
+//
+// The ring has FragmentNum + DeleteThreshold + 1 slots; frag is the media-sequence number of the first listed
+// segment, nfrags the number of listed segments; segment ids are frag+nfrags and a segment with id j lives in
+// slot j % capacity.
+
+//@ type Muxer nonnil config
+//@ type Muxer invariant [C10.ring] self.config.FragmentNum >= 0 && self.config.DeleteThreshold >= 0 && self.config.FragmentNum <= 1000000 && self.config.DeleteThreshold <= 1000000 && len(self.frags) == self.config.FragmentNum + self.config.DeleteThreshold + 1 && 0 <= self.nfrags && self.nfrags <= self.config.FragmentNum && 0 <= self.frag && self.frag <= 1000000000000
+
+// configuration validity (fragment_num, delete_threshold are non-negative and small): an assumption on the
+// loaded configuration, not checked where the configuration is read from JSON
+//@ func (*Muxer).makeFrags
+//@   props C10
+//@   assumes m.config.FragmentNum >= 0 && m.config.DeleteThreshold >= 0 && m.config.FragmentNum <= 1000000 && m.config.DeleteThreshold <= 1000000
+//@   ensures [C10.ring.size] len(m.frags) == m.config.FragmentNum + m.config.DeleteThreshold + 1
+//@ end
+
+//@ func (*Muxer).getFragmentId
+//@   props C10
+//@   ensures [C10.id] result == m.frag + m.nfrags
+//@ end
+
+//@ func (*Muxer).getFrag
+//@   props C10
+//@   mode int
+//@   requires m.frag + n >= 0
+//@   ensures [C10.slot] result == &m.frags[(m.frag + n) % len(m.frags)]
+//@ end
+
+// one more segment: ids advance by exactly one, the media sequence never goes back, the window never exceeds FragmentNum
+// fewer than 10^12 segments in the life of one muxer (machine arithmetic: frag+1 does not wrap)
+//@ func (*Muxer).incrFrag
+//@   props C10
+//@   assumes m.frag < 1000000000000
+//@   ensures [C10.incr.id] m.frag + m.nfrags == old(m.frag + m.nfrags) + 1
+//@   ensures [C10.incr.seq] m.frag >= old(m.frag) && m.nfrags >= old(m.nfrags)
+//@   ensures [C10.incr.window] old(m.nfrags) < m.config.FragmentNum ==> m.frag == old(m.frag)
+//@ end
+
+//@ func (*Muxer).getCurrFrag
+//@   props C10
+//@   mode int
+//@   ensures [C10.curr.slot] result == &m.frags[(m.frag + m.nfrags) % len(m.frags)]
+//@ end
+
+// called after incrFrag: the slot of the segment just closed, i.e. the one with the highest id so far
+//@ func (*Muxer).getClosedFrag
+//@   props C10
+//@   mode int
+//@   requires m.frag + m.nfrags >= 1
+//@   ensures [C10.closed.slot] result == &m.frags[(m.frag + m.nfrags - 1) % len(m.frags)]
+//@ end
+
+// the slot whose old file is removed is not the slot of any segment listed now or in the previous
+// DeleteThreshold playlist versions (ids frag-DeleteThreshold .. frag+nfrags-1)
+//@ func (*Muxer).getDeleteFrag
+//@   props C10
+//@   mode int
+//@   ensures [C10.delete.slot] result == &m.frags[(m.frag + m.nfrags) % len(m.frags)]
+//@   ensures [C10.delete.spares] forall j in [0, m.frag + m.nfrags) :: j >= m.frag - m.config.DeleteThreshold ==> j % len(m.frags) != (m.frag + m.nfrags) % len(m.frags)
+//@ end
+
+//@ func (*Muxer).extXMediaSeq
+//@   props C10
+//@   ensures [C10.mediaseq] result == m.frag
+//@ end
+
+// a new segment takes the next id and the slot id % capacity; frag/nfrags do not move while it is open
+//@ func (*Muxer).openFragment
+//@   props C10
+//@   assert after "m.fragTs = ts" [C10.open.slot] m.opened && m.frag == entry(m.frag) && m.nfrags == entry(m.nfrags) && m.frags[(m.frag + m.nfrags) % len(m.frags)].id == m.frag + m.nfrags && m.frags[(m.frag + m.nfrags) % len(m.frags)].discont == discont
+//@   assert after "m.fragTs = ts" [C10.open.keep] forall i in [0, len(m.frags)) :: i != (m.frag + m.nfrags) % len(m.frags) ==> m.frags[i].id == entry(m.frags[i].id) && m.frags[i].filename == entry(m.frags[i].filename)
+//@   returns [C10.open.refuse] entry(m.opened) ==> result != nil
+//@ end
+
+// closing publishes exactly one more segment and removes only the slot spared by getDeleteFrag
+//@ func (*Muxer).closeFragment
+//@   props C10
+//@   assert after "m.incrFrag()" [C10.close.incr] !m.opened && m.frag + m.nfrags == entry(m.frag + m.nfrags) + 1 && m.frag >= entry(m.frag)
+//@   assert after "frag := m.getDeleteFrag()" [C10.close.delete] frag == &m.frags[(m.frag + m.nfrags) % len(m.frags)]
+//@   returns [C10.close.noop] !entry(m.opened) ==> result == nil && m.frag == entry(m.frag) && m.nfrags == entry(m.nfrags)
+//@ end
+
+//@ func (*Muxer).iterateFragsInPlaylist
+//@   props C10
+//@ end
+
+// EXT-X-TARGETDURATION of the record playlist is int(recordMaxFragDuration): it must be at least the duration
+// of the segment just closed rounded to the nearest second
+//@ func (*Muxer).writeRecordPlaylist
+//@   requires m.frag + m.nfrags >= 1
+//@   props C10
+//@   assert after "fragLines := ..." [C10.target.record] slow: currFrag.duration >= 0.0 && currFrag.duration <= 1000000.0 && entry(m.recordMaxFragDuration) >= 0.0 && entry(m.recordMaxFragDuration) <= 1000001.0 ==> int(m.recordMaxFragDuration) >= int(currFrag.duration + 0.5) && m.recordMaxFragDuration >= entry(m.recordMaxFragDuration)
+//@ end
+
+// the live playlist's EXT-X-TARGETDURATION is int(maxFrag) after this closure has visited every listed
+// segment: each visit must leave int(maxFrag) >= the visited duration rounded to the nearest second and
+// never lower maxFrag (so segments visited earlier stay covered)
+//@ func (*Muxer).writePlaylist$1
+//@   props C10
+//@   requires frag.duration >= 0.0 && frag.duration <= 1000000.0 && maxFrag >= 0.0 && maxFrag <= 1000001.0
+//@   ensures [C10.target.live] int(maxFrag) >= int(frag.duration + 0.5)
+//@   ensures [C10.target.mono] maxFrag >= old(maxFrag)
+//@ end
